@@ -4,7 +4,9 @@ M-ACK: require-ack locks (C11). A small lock engine for the keys involved (serve
 `doTimeOut` / `doExpried` / `DoAckLock`, server/lock.go `AddLock` / `RemoveLock` / `ProcessLockData(…, requireRecover)` /
 `ProcessAckLockData` / `ProcessRecoverLockData`) together with the leader side of `ReplicationAckDB` (server/replication.go:
 `ProcessLeaderPushLock`, `ProcessLeaderPushUnLock`, `ProcessLeaderAofed`, `ProcessLeaderAcked`, `SwitchToFollower`, `FlushDB`),
-`ReplicationManager.PushLock`'s gate and `UpdateDBAckCount`. Written to mirror the code that exists. Core Lean only.
+`ReplicationManager.PushLock`'s gate and `UpdateDBAckCount`. Written to mirror the code that exists — the tree with the repairs
+e4ad793 (re-entrant require-ack LOCK: UPDATED record journalled without the ack registration, `Rec.noAckFlag`), 804e6dc (unlock-first
+honours the pending test, `classifyUnlock`) and f622546 (`leaderPushLock` does not register a lock that is no longer held). Core Lean only.
 
 Granularity. One event = one complete call of a real entry point, executed to completion before the next one starts (in the server the
 journal delivery, the flush report and the follower answers run on other goroutines; each of them takes the ack-table mutex and then the
@@ -321,6 +323,10 @@ def DB.pushJ (db : DB) (r : Rec) (isLock : Bool) : DB × Bool :=
   else if db.closed then (db, false)
   else ({ db with journal := db.journal ++ [{ key := r.cmd.key, isLock := isLock, hid := if r.cmd.ack then some r.hid else none }] }, true)
 
+/-- the record as `AofChannel.Push` sees it while the command's require-ack bit is cleared (`pushJ` looks at the key, the identity and
+that bit only; the subset has no other TimeoutFlag bit) -/
+def Rec.noAckFlag (r : Rec) : Rec := { r with cmd := { r.cmd with tflag := 0 } }
+
 /-- `PushLockAof(lock, flag)`: on success `lock.isAof = true` (only when something was pushed) -/
 def DB.pushLock (db : DB) (hid : Nat) : DB × Bool :=
   let p := db.pushJ (db.getR hid) true
@@ -527,7 +533,8 @@ def applyLock (db : DB) (c : Cmd) : LockBranch → DB × List Reply
       | some f => db1.modKey c.key (fun k => { k with cell := some (applyFrame k.cell f).1 })
       | none => db1
     let db3 := db2.updateHold h c
-    let db4 := if (db3.getR h).isAof then (db3.pushLock h).1 else db3
+    -- the hold is journalled already: its UPDATED record is pushed with the require-ack bit cleared (no lock pointer, no registration)
+    let db4 := if (db3.getR h).isAof then (db3.pushJ (db3.getR h).noAckFlag true).1 else db3
     let db5 := db4.ctrMod (fun x => { x with lockCount := x.lockCount + 1, lockedCount := x.lockedCount + 1 })
     (db5, [mkReply c R_SUCCED (db5.getKey c.key).locked (db5.getR h).depth v0])
   | .grant =>
@@ -565,9 +572,9 @@ def classifyUnlock (db : DB) (c : Cmd) : UnlockBranch :=
     | some h => if h.pending then .ackWaiting h.hid else go h c.rcount
     | none =>
       if has c.flag UF_FIRST then
-        -- `currentLock`, whatever its state: the ack-pending check is not made on this path
+        -- `currentLock`; the ack-pending test applies to it as well
         match (db.holders c.key).head? with
-        | some h => go h h.cmd.rcount
+        | some h => if h.pending then .ackWaiting h.hid else go h h.cmd.rcount
         | none => .unown
       else .unown
 
@@ -670,7 +677,7 @@ def DB.dropEnt (db : DB) (id : Nat) : DB := { db with tab := db.tab.filter (·.i
 /-- `ProcessLeaderPushLock` -/
 def leaderPushLock (db : DB) (id hid : Nat) : DB × List Reply :=
   if !db.leader then ackDone db hid false
-  else if (db.findReq (db.getR hid).cmd.req).isSome then ackDone db hid false
+  else if (db.findReq (db.getR hid).cmd.req).isSome || (db.getR hid).depth == 0 then ackDone db hid false   -- already pending under that RequestId, or no longer held
   else
     let e : Ent := { id := id, req := (db.getR hid).cmd.req, hid := hid }
     ({ db.modR hid (fun r => { r with ack := reqAcks db.cfg }) with tab := db.tab ++ [e] }, [])
